@@ -16,6 +16,7 @@ From Tele Require Import Lib.Bytes Lib.Calendar Lib.SortedMap Model.Bucket Model
   Proofs.BucketFacts Proofs.EndpointFacts.
 Import ListNotations.
 Open Scope N_scope.
+From Coq Require Import String. Open Scope string_scope. Open Scope N_scope. Open Scope list_scope.
 
 (* An object is stored iff the method is POST, the body is within the limit
    and decodes, and the report has a valid week, a semver config, a non-zero
@@ -58,6 +59,18 @@ Theorem C12_validate_accepts_iff : forall semver cfg r,
   validate semver cfg r = VOk <-> valid_report semver cfg r = true.
 Proof. exact validate_ok_iff. Qed.
 Print Assumptions C12_validate_accepts_iff.
+
+(* the approved counter set is computed from the raw configuration by the
+   documented expansion, not taken from the code: a configured name without a
+   bucket list stands for itself; prefix{b1,...,bn} stands for the n names
+   prefix++bi - for one bucket too *)
+Theorem C12_expand_plain : forall c, ~ In 123%N c -> expand c = [c].
+Proof. exact expand_plain. Qed.
+Print Assumptions C12_expand_plain.
+Theorem C12_expand_buckets : forall p bs, ~ In 123%N p -> bs <> [] -> (forall b, In b bs -> ~ In 44%N b) ->
+  expand (p ++ [123%N] ++ join bs [44%N] ++ [125%N]) = map (fun b => p ++ b) bs.
+Proof. exact expand_buckets. Qed.
+Print Assumptions C12_expand_buckets.
 
 (* "only approved contents": every plain counter of a valid report is, as a
    WHOLE name, one of the expanded counter names configured for that very
@@ -156,6 +169,13 @@ Proof. exact upload_store_init. Qed.
 Print Assumptions C12_fresh_bucket_is_upload_store.
 
 (* Non-vacuity *)
+(* "go/build/flag:{buildmode}" (one bucket) approves go/build/flag:buildmode, not its own spelling;
+   "f:{a,}" approves f:a and f: *)
+Example C12_example_expand :
+  expand (s2b "go/build/flag:{buildmode}") = [s2b "go/build/flag:buildmode"] /\
+  expand (s2b "f:{a,}") = [s2b "f:a"; s2b "f:"] /\ expand (s2b "plain") = [s2b "plain"] /\
+  pc_counters (mk_pconfig (s2b "p") [] [s2b "x:{1}"; s2b "y"] []) = [s2b "x:1"; s2b "y"].
+Proof. vm_compute. repeat split; reflexivity. Qed.
 (* {"Programs":[null]}: refused with 4xx, nothing stored (was 5xx before fix b5cf921) *)
 Example C12_example_null_program :
   handle (fun _ => true) (fun _ => []) empty_config post true (Some null_report) fs_init = (S4xx, fs_init) /\
